@@ -2,7 +2,7 @@
 import os, sys, time
 HERE = os.path.dirname(os.path.abspath(__file__)); VERIF = os.path.dirname(HERE)
 sys.path.insert(0, os.path.join(VERIF, 'engine'))
-import loader, symrt as rt, cxxlib, explore
+import loader, symrt as rt, cxxlib, explore, vfs
 from symrt import S, SF
 
 VM_SOURCES = ['/verif/harness/w_vm.cpp', 'runtime/runtime.cpp', 'runtime/frame.cpp', 'runtime/logging.cpp', 'runtime/d_scalar.cpp', 'runtime/d_array.cpp', 'runtime/fileio.cpp',
@@ -12,7 +12,7 @@ VM_SOURCES = ['/verif/harness/w_vm.cpp', 'runtime/runtime.cpp', 'runtime/frame.c
               'operators/ops_text.cpp', 'operators/dlops.cpp', 'parser/assembly/parser.tab.cc', 'parser/assembly/assembly_parser.cpp', 'parser/sqf/sqf_formatter.cpp']
 VM_ROOTS = ['w_vm_new', 'w_vm_delete', 'w_vm_runtime', 'w_vm_run_sqf', 'w_vm_state', 'w_vm_execute', 'w_vm_context_count', 'w_val_kind', 'w_val_scalar', 'w_val_bool', 'w_val_strlen',
             'w_val_strcopy', 'w_val_arrlen', 'w_val_arrat', 'w_val_dataptr', 'w_val_tostring', 'w_vm_compile', 'w_vm_push_code', 'w_iset_size', 'w_iset_tostring', 'w_iset_free',
-            'w_vm_mon_enable', 'w_vm_set_cfg', 'w_ctx_values_size', 'w_ctx_frames_size', 'w_ctx_frame_vsp', 'w_ctx_value_at', 'w_ctx_ptr', 'w_ctx_suspended', 'w_vm_parse_config', 'w_vm_preprocess', 'w_vm_register_dummy', 'w_str_quote', 'w_str_unquote', 'w_vm_prettify', 'w_val_new_scalar', 'w_val_new_bool', 'w_val_new_string', 'w_val_new_nil', 'w_val_new_array', 'w_val_equals', 'w_val_hash']
+            'w_vm_mon_enable', 'w_vm_set_cfg', 'w_ctx_values_size', 'w_ctx_frames_size', 'w_ctx_frame_vsp', 'w_ctx_value_at', 'w_ctx_ptr', 'w_ctx_suspended', 'w_vm_parse_config', 'w_vm_preprocess', 'w_vm_register_dummy', 'w_str_quote', 'w_str_unquote', 'w_vm_prettify', 'w_val_new_scalar', 'w_val_new_bool', 'w_val_new_string', 'w_val_new_nil', 'w_val_new_array', 'w_val_equals', 'w_val_hash', 'w_vm_add_mapping', 'w_vm_get_info', 'w_vm_read_file', 'w_vm_run_sqf_at']
 OPS = dict(generic=1, logic=2, math=4, string=8, hashmap=16, namespace=32, sqfvm=64, config=128, diag=256, text=512)
 OPS_DEFAULT = 1 | 2 | 4 | 8 | 16 | 32 | 64 | 128 | 256 | 512
 
@@ -123,6 +123,19 @@ class Host:
         if n >> 63: return None
         r = rt.read_vals(ob, min(n, cap)); rt.OBJ.pop(ob >> 32, None)
         return r
+    def cs(s, b):
+        if isinstance(b, str): b = b.encode()
+        return rt.make_bytes(b + b'\0', 'input')
+    def add_mapping(s, vm, phys, virt): s.N['w_vm_add_mapping'](vm, s.cs(phys), s.cs(virt))
+    def get_info(s, vm, view, cur_phys=b'', cur_virt=b''):
+        op = rt.new_obj(1024, 'harness'); ov = rt.new_obj(1024, 'harness')
+        r = s32(s.N['w_vm_get_info'](vm, s.cs(view), s.cs(cur_phys), s.cs(cur_virt), op, ov, 1024))
+        if not r: return None
+        return rt.cstr(op), rt.cstr(ov)
+    def run_at(s, vm, code, phys, virt):
+        if isinstance(code, str): code = code.encode()
+        buf = rt.make_bytes(code, 'input', 'sqf source')
+        return s32(s.N['w_vm_run_sqf_at'](vm, buf, len(code), s.cs(phys), s.cs(virt)))
     def errors(s):
         return [l for l in s.logs if l[0] in (0, 1)]
 
